@@ -1450,7 +1450,7 @@ def c10_family(tier, rnd):
         main = [Open(name="div", i18n=a or None, sattr=[]), Open(um=("m1", 1, False), name="section", sattr=[]), Text("ign"),
                 Open(fs="s", name="b", i18n=f or None, sattr=[])] + sites(al) + [CLOSE, CLOSE] + sites(al, 1) + [CLOSE]
         lib = [Open(name="div", i18n=b or None, sattr=[]), Open(dm="m1", name="div", sattr=[])] + sites(al, 2) + \
-            [Open(name="em", i18n={"d": "slotdom"}, sattr=[]), Open(ds="s", name="u", sattr=[]), Text("default"), CLOSE, CLOSE] + sites(al, 1) + [CLOSE, CLOSE]
+            [Open(name="em", i18n={"d": "slotdom", "t": "it"}, sattr=[]), Open(ds="s", name="u", sattr=[]), Text("default"), CLOSE, CLOSE] + sites(al, 1) + [CLOSE, CLOSE]
         add(main + lib, al, "T6m:%s/%s/%s" % (sorted(a.items()), sorted(b.items()), sorted(f.items())), "identity", main=len(main),
             libs=[{"from": len(main) + 1, "to": len(main) + len(lib)}])
     # T7: translations across the macro / filler boundary: a slot inside a translated element (or inside a named child)
